@@ -443,8 +443,8 @@ func genDialogueOnce(r *rand.Rand, plain bool) Desc {
 	// echo-phase traffic: more than the search window (max(depth, 2*len(input))) delivered between
 	// the write of a visible, response-expecting event's input and the end of its echo -- as a burst
 	// of log lines in front of the echo, or as the tail of the previous event's long notice
-	budget := 3000
-	if (d.Seg.Mode == "fixed" || d.Seg.Mode == "geom") && d.Seg.Size <= 3 {
+	budget := 2000
+	if (d.Seg.Mode == "fixed" || d.Seg.Mode == "geom") && d.Seg.Size <= 7 {
 		budget = 800 // byte-wise delivery: keep the dialogue well inside the operation timeout
 	}
 	fill := func(min int) []string {
